@@ -75,7 +75,9 @@ def ok_paths(eng, paths):
 
 
 def range_guard(a, v):
-    return a[0] == "b" and a[1][0] == "cmp" and a[1][1] in ("gt", "ge")
+    # the message-id range gate in any spelling (message_id >= limit -> Err, or message_id < limit -> Ok); that it is exactly
+    # `message_id < limit` is C12 R12-2 / C01 R01-6
+    return a[0] == "b" and a[1][0] == "cmp" and a[1][1] in ("gt", "ge", "lt", "le")
 
 
 PARTIAL_IO_RX = r"(std::io|ark_serialize|ark_std::io)::(Write::(write|write_vectored)|Read::(read|read_vectored))$"
